@@ -420,6 +420,11 @@ def run_case(ctx, cid, P):
     wside = rng.choice("cs")
     rside = peer[wside]
     n_last = rng.choice([1, 10, 300, 1017])
+    import errno as _errno
+    # the closer's socket is gone by the time the reader answers the
+    # close_notify: that reply fails, with one errno or another
+    p.link.peer_gone_errno = rng.choice([_errno.EPIPE, _errno.ECONNRESET,
+                                         _errno.ECONNABORTED])
     if do_write(wside, n_last):
         tcl = drive.Task("close", drive.aclose(ends[wside]), socks[wside])
         drive.run([tcl], p.link, max_steps=2000)
